@@ -514,7 +514,7 @@ def gen_spec(ctx, fmt, idx):
               "pptx": ["rel"] * 5 + ["parent", "abs", "dot", "updown", "missing", "external"],
               "xlsx": ["rel"] * 5 + ["parent", "abs", "dot", "updown", "missing"],
               "epub": ["rel"] * 5 + ["abs", "dot", "missing", "parent"],
-              }.get(fmt, ["rel"] * 6 + ["dot", "updown", "missing", "external"])
+              }.get(fmt, ["rel"] * 6 + ["dot", "updown", "middot", "dslash", "missing", "external"])
     spec = {"fmt": fmt, "media": media, "units": [], "idx": idx}
     if fmt == "epub":
         spec["opf"] = rng.choice(["OEBPS/content.opf", "OEBPS/content.opf", "OEBPS/pkg/content.opf", "content.opf"])
@@ -572,6 +572,16 @@ def gen_spec(ctx, fmt, idx):
             if fmt == "xlsx":
                 pl.setdefault("anchor", "two")
             unit.append(pl)
+        if fmt == "odt" and u == 1 and rng.random() < 0.35:
+            # every structural position gets every spelling: a CAPTIONED picture (text-box) whose href is not in normal
+            # form, as the only placement of its media
+            kind_ = rng.choice(["png", "jpeg", "gif", "bmp"])
+            w_, h_ = rng.randint(1, 9), rng.randint(1, 9)
+            media.append({"part": f"Pictures/captioned{idx}.{Wr.EXT[kind_]}", "kind": kind_, "w": w_, "h": h_,
+                          "data": Wr.MAKERS[kind_](w_, h_, idx) + b"#cap%d" % idx, "present": True})
+            st_ = rng.choice(["dot", "updown", "middot", "dslash"])
+            unit.insert(rng.randint(0, len(unit)), {"style": st_, "rid": "rIdC", "m": len(media) - 1, "in_textbox": True,
+                                                   "target": _target(spec, fmt, 1, media[-1]["part"], st_)})
         if twins and u == 1:
             for j_, m_ in enumerate(twins[:2]):
                 tp = {"style": "rel", "rid": f"rIdT{j_}", "m": m_, "target": _target(spec, fmt, 1, media[m_]["part"], "rel"), "twin": twins[2]}
@@ -607,7 +617,8 @@ def _target(spec, fmt, unit_no, part, style):
         return Wr.opc_target(src, part, style)
     if fmt == "epub":
         return Wr.opc_target(spec["opf"], part, style if style != "parent" or "/" in os.path.dirname(spec["opf"]) else "rel")
-    return {"rel": part, "dot": "./" + part, "updown": "x/../" + part}.get(style, part)            # ODF hrefs (package root)
+    d_, _, b_ = part.rpartition("/")                                     # ODF hrefs (package root)
+    return {"rel": part, "dot": "./" + part, "updown": "x/../" + part, "middot": f"{d_}/./{b_}", "dslash": f"{d_}//{b_}"}.get(style, part)
 
 
 def run_impl(spec, data):
@@ -674,6 +685,8 @@ def check_spec(ctx, spec, doc, units, replay):
     scopes = [("the document", got_ids, [pl for u in placed for pl in u])]
     misattributed = fmt in UNIT_FORMATS and any(
         {g for g in ids if g is not None} - (want_sets[k] if k < len(want_sets) else set()) for k, ids in enumerate(unit_ids))
+    if fmt == "xlsx" and spec.get("sheet_files") != list(range(1, len(spec["units"]) + 1)):
+        misattributed = True                        # known: drawings found by part number (xlsx-unit-attribution:...)
     if fmt in UNIT_FORMATS and not misattributed:   # per unit, unless pictures sit on the wrong unit (reported separately)
         scopes += [(f"unit {k + 1}", unit_ids[k] if k < len(unit_ids) else [], placed[k]) for k in range(len(placed))]
     surplus = {}
